@@ -80,6 +80,13 @@ MUTANTS = [
     ('N16', C + 'dd_dtw.c', 'idx_t dtw_settings_wps_width(', '    DTWWps p = dtw_wps_parts(l1, l2, settings);\n    return p.width;', '    DTWWps p = dtw_wps_parts(l1, l2, settings);\n#ifdef NDEBUG\n    p.width = p.width - 1;\n#endif\n    return p.width;', [('C08', 'R-CFG'), ('C02', 'R-CFG')]),
     ('N17', C + 'dd_dtw.c', 'idx_t dtw_best_path_prob(', 'probs[2] = prev - wps[ri_widthp + wpsi + 1]; // Right', 'probs[2] = prev - wps[ri_widthp + wpsi]; // Right', [('C05', 'R-MAP'), ('C12', 'R-MAP')]),
     ('N15', P + 'similarity.py', 'def squash', 'Xz = 1 - np.exp(x0 / r)', 'Xz = 1 - np.exp(-x0 / r)', [('C19', 'R-DUAL')]),
+    # F55 / F56 re-introduced
+    ('N18', C + 'dd_dtw.c', 'seq_t dtw_warping_paths_affinity_ndim(', 'for (; ci<MIN(ri, l2); ci++) {', 'for (; ci<ri; ci++) {', [('C08', 'R-MAP'), ('C18', 'R-MAP')]),
+    ('N19', P + 'clustering/kmeans.py', 'def kmedoids_centers', "if self.dists_options.get('use_c', False):\n            fn_dm", "if self.dists_options.use_c:\n            fn_dm", [('C16', 'R-SIG')]),
+    # the 0-means-off encoding, decided symbolically
+    ('N20', C + 'dd_dtw.c', 'seq_t dtw_distance_ndim(seq_t *s1', 'if (max_step == 0) {\n        max_step = INFINITY;', 'if (max_step < 0) {\n        max_step = INFINITY;', [('C10', 'R-TAB'), ('C16', 'R-TAB')]),
+    # euclidean loop summary: the surplus of series 1 compared with the first instead of the last element of series 2
+    ('N21', C + 'dd_ed.c', 'seq_t euclidean_distance(', 'ub += SEDIST(s1[i], s2[n-1]);', 'ub += SEDIST(s1[i], s2[0]);', [('C09', 'R-PATH')]),
 ]
 
 # behaviour-preserving twins: (id, file, anchor, old, new, [properties that must stay at exit 0])
